@@ -37,6 +37,8 @@ func suiteC16ErrPos(cfg Config, res *Result) {
 	g.NoErr = true
 	bad := []string{"{{ 1 / 0 }}", "{{ i.x }}", "{{ s(1) }}", "{{ 5 % z }}", "{{ s|ljust:99999999 }}", "{% if 1 / 0 %}a{% endif %}", "{% for q in l %}{{ q.0 }}{% endfor %}",
 		"{{ st.A.0.x }}", "{% set v = 2 / z %}", "{% firstof 1/0 %}", "{{ l|join:(1/0) }}", "{% with a=1/0 %}{% endwith %}", "{{ mac(1, 2, 3, 4, 5, 6) }}", "{% widthratio 1 0 1 %}",
+		"{{ s|slice:\"x\" }}", "{{ i|pluralize:\"a,b,c\" }}", "{{ s|pluralize }}", "{{ s|date:\"x\" }}", "{{ s|time:\"x\" }}", "{{ s|yesno:\"a,b,c,d\" }}", "{{ s|yesno:\"a\" }}",
+		"{{ s|rjust:99999999 }}", "{{ s|center:99999999 }}", "{% if s|slice:\"x\" %}{% endif %}", "{% set v = i|pluralize:\"a,b,c\" %}", "{{ f|floatformat:99999 }}",
 		"{{ nosuch|nosuchfilter }}", "{% nosuchtag %}", "{{ 1 + }}", "{% if %}{% endif %}", "{{ \"a\\\"b\"|nosuchfilter }}", "{{ 'x\\\\y\\\"z'|nosuch2 }}", "{% for %}", "{{ x..y }}", "{% include %}"}
 	pad := func() string {
 		k := rng.Intn(4)
@@ -117,6 +119,12 @@ func suiteC16ErrPos(cfg Config, res *Result) {
 			continue
 		}
 		e := o.Err
+		if e.Filename == "" && e.Token != nil && e.Token.Filename != "" {
+			// an execution error positioned by its token: the token names the source it was read from
+			cp := *e
+			cp.Filename = e.Token.Filename
+			e = &cp
+		}
 		if i < 4 {
 			res.sample(fmt.Sprintf("%s => %s %s:%d:%d", c.String(), o.Class, e.Filename, e.Line, e.Column))
 		}
